@@ -206,6 +206,7 @@ Definition uev_ok (e : uev) : bool :=
   match e with
   | EUserSend a _ => uaddr_smallb a
   | ECliPump os_ok => os_ok
+  | ESrvDeliver wr_ok => wr_ok
   | _ => true
   end.
 
